@@ -515,6 +515,10 @@ def gen_cases(rng, tier):
     q = tier == 'quick'
     from gen import c14_enum
     cases = c14_enum.enum_cases()        # enumerated on every run, before anything random
+    import os
+    only = os.environ.get('VERIF_C14_CLASSES')          # self-test aid: 'enum' / 'enum-table' run the enumerated classes alone
+    if only == 'enum': return cases
+    if only == 'enum-table': return [c for c in cases if c.get('kind') != 'global']
     cases += prefix_cases(rng, 150 if q else 800)
     cases += prefix_merge_cases(rng, 120 if q else 600)
     cases += aspath_cases(rng, 150 if q else 800)
